@@ -30,3 +30,5 @@ Example C02_nonvacuous :
   Fscalar p = true /\ exists q, optimize (W_ex []) 100 p = Ok q [] /\ peq q p = false
     /\ beval (W_ex []) q (VQ KInt 3 true) = true /\ beval (W_ex []) p (VQ KInt 3 true) = true.
 Proof. cbv zeta. split; [reflexivity|]. eexists. split; [vm_compute; reflexivity|]. vm_compute. auto. Qed.
+
+Print Assumptions C02_nonvacuous.
